@@ -71,8 +71,12 @@ type (
 	}
 )
 
-func (r RatioLiteral) ToRatio() *big.Rat {
-	return new(big.Rat).SetFrac(r.Numerator, r.Denominator)
+// The second result is false when the literal does not denote a number (e.g. `1/0`)
+func (r RatioLiteral) ToRatio() (*big.Rat, bool) {
+	if r.Denominator.Sign() == 0 {
+		return nil, false
+	}
+	return new(big.Rat).SetFrac(r.Numerator, r.Denominator), true
 }
 
 func (a *AccountLiteral) IsWorld() bool {
